@@ -9,6 +9,9 @@ for f in sorted(glob.glob(os.path.join(V, "props", "C*.json"))):
 na_path = os.path.join(V, "props", "not_applicable.json")
 na = json.load(open(na_path)) if os.path.exists(na_path) else {}
 all_ids = [json.loads(l)["id"] for l in open(os.path.join(V, "properties.jsonl"))]
+# only properties listed in props/claimed.txt are registered (harnesses still under construction are not)
+claimed = set(open(os.path.join(V, "props", "claimed.txt")).read().split())
+props = {k: v for k, v in props.items() if k in claimed}
 checks = []
 for pid in all_ids:
     if pid not in props:
